@@ -1732,6 +1732,33 @@ func main() {
 		}
 	}
 	time.Local, g.zone = time.UTC, "UTC"
+	// ... and the same deadlines for sessions in which one of the echoed fields is empty
+	for blank := 0; blank < 3; blank++ {
+		for j, offs := range [][2]int64{{3600, 86400}, {-120, 86400}, {-3600, 86400}, {3600, -120}, {3600, -3600}, {-3600, -3600}} {
+			g.n++
+			w := g.worlds[[]int{0, 5}[(blank+j)%2]]
+			base := time.Now().Truncate(time.Second)
+			fs := sess{Email: fmt.Sprintf("zqEM%d@mark.example.test", g.n), Access: fmt.Sprintf("zqAT%dx", g.n),
+				Refresh: fmt.Sprintf("zqRT%dx", g.n), RefreshOff: offs[0], LifeOff: offs[1]}
+			switch blank {
+			case 0:
+				fs.Refresh = ""
+			case 1:
+				fs.Access = ""
+			case 2:
+				fs.Email = ""
+			}
+			kind := 1
+			if offs[0] < 0 {
+				kind = 3
+			} else if offs[1] < 0 {
+				kind = 4
+			}
+			code := codeSpec{Kind: kind, Value: g.sealWith(newCipher(w.codeKey), base, fs), S: &fs}
+			cases = append(cases, g.runSeq(g.genCase(&fixed{ep: "/redeem", method: "POST", ctype: "application/x-www-form-urlencoded",
+				pre: j%2 == 1, idCase: 15, secCase: 16, code: &code, base: base, w: w}, false)))
+		}
+	}
 	timed := g.timedStart(&cases)
 	// generated requests come in batches of 4-16: each is first run alone, then the whole batch is
 	// run again with all its requests in flight at once (half of the batches under GOMAXPROCS(1));
